@@ -404,6 +404,51 @@ func c19c(c *Ctx) {
 	if fn == nil || sw == nil || sl == nil {
 		return
 	}
+	// adjacent string pieces: after a closing quote *all* whitespace (blanks as well as line
+	// breaks) is skipped before the lexer looks for the next opening quote, on every path
+	if rs := c.Fn("lexer.Lexer.readString"); rs != nil {
+		var outer *ssa.BasicBlock
+		for _, b := range rs.Blocks {
+			if isLoopHeader(b) && loopHeaders(rs)[b] == b {
+				// outermost loop: its header is not inside another loop's body
+				inner := false
+				for _, h := range rs.Blocks {
+					if h != b && isLoopHeader(h) && loopBody(h)[b] {
+						inner = true
+					}
+				}
+				if !inner {
+					outer = b
+				}
+			}
+		}
+		if outer == nil {
+			c.Unk("readString/pieces-loop", c.W.FuncPos(rs), "cannot find the loop over the string pieces")
+		} else {
+			isSkip := func(in ssa.Instruction) bool {
+				ci, ok := in.(ssa.CallInstruction)
+				return ok && callee(ci) == sw
+			}
+			skipped := true
+			for i, pred := range outer.Preds {
+				_ = i
+				if !outer.Dominates(pred) {
+					continue // entry edge
+				}
+				// some body path to this back edge without the whitespace skipper?
+				for _, s := range outer.Succs {
+					if !loopBody(outer)[s] {
+						continue
+					}
+					_, free := existsPath(pathQuery{from: point{s, 0}, avoid: isSkip, target: func(in ssa.Instruction) bool { return in.Block() == outer && idxInBlock(in) == 0 }})
+					if free {
+						skipped = false
+					}
+				}
+			}
+			c.Check(skipped, "readString/whitespace-between-pieces", c.W.FuncPos(rs), "all whitespace after a closing quote is skipped before the next piece is looked for", "after a string piece the lexer can look for the next opening quote without having skipped all whitespace: \"a\" \"b\" on one line and across lines would tokenise differently")
+		}
+	}
 	// whitespace set
 	{
 		var head *ssa.BasicBlock
